@@ -77,8 +77,15 @@ func DecodeShards(flatten []byte, indices []int, dataShards, parityShards, shard
 	if len(flatten) == 0 || len(indices) == 0 {
 		return nil, errors.New("no shards provided")
 	}
+	if shardSize <= 0 {
+		return nil, fmt.Errorf("invalid shardSize %d", shardSize)
+	}
 	if len(flatten)%shardSize != 0 {
 		return nil, fmt.Errorf("flatten data length %d not divisible by shardSize %d", len(flatten), shardSize)
+	}
+	if len(flatten)/shardSize != len(indices) {
+		// rs_decode reads len(indices)*shardSize bytes from flatten
+		return nil, fmt.Errorf("got %d shards for %d indices", len(flatten)/shardSize, len(indices))
 	}
 	shardCount := len(indices)
 
